@@ -593,3 +593,73 @@ def c19(tier, replay=None):
     chk.part("rules", **info.get("rules", {}))
     chk.add_states(0, 0)
     return chk.finish()
+
+
+# ------------------------------------------------------------------------------------------------
+def smt_inputs(chk, T):
+    corpus = expr_corpus(chk, SMALL_T if T else SMALL_Q + [3], WIDE_T if T else WIDE_Q)
+    recs = []
+    for (mode, wd), rs in corpus.items():
+        if mode == "small":
+            recs += pv.subsample(rs, 20000 if T else (2500 if wd <= 2 else 1500), pv.seed() + wd)
+        else:
+            recs += pv.subsample(rs, 6000 if T else 500, pv.seed() + wd)
+    return recs
+
+
+def c05(tier, replay=None):
+    chk = Check("C05", tier, "model_checking")
+    T = chk.thorough()
+    trace = chk.work / "trace.ndjson"
+    if replay:
+        rep = json.loads(Path(replay).read_text())
+        pv.write_ndjson(trace, [rep["detail"]["record"]])
+        info = {"records": 1}
+    else:
+        pv.write_ndjson(chk.work / "in.ndjson", smt_inputs(chk, T))
+        p = pv.pv(["c05", "--in", chk.work / "in.ndjson", "--out", trace, "--random", 20000 if T else 2500])
+        info = json.loads(p.stdout.strip().splitlines()[-1])
+    st = batch_check(chk, "Trace_C05", trace, lambda rj, rec: {"why": rj["why"], "loc": rj.get("loc", "").split("|")[0]},
+                     lambda rj, rec: {"record": rec, "tlc": rj}, shards=14)
+    chk.cov["traces_validated_against_impl"] = st["records"]
+    chk.cov["evaluations"] = st["records"]
+    chk.cov["distinct_nontrivial"] = st["records"]
+    chk.cov["rule"] = ("expressions of ExprGen.tla (every operator incl. division/remainder and arrays, every mixture of 1-bit and wider operands) and "
+                       "seeded random DAGs with 1-bit index/data arrays and symbol names that need quoting; for each: declare-const of all symbols + "
+                       "define-fun / get-value / assert / check-sat-assuming written by serialize_cmd, tokenised independently, judged by SmtLib.tla "
+                       "(strict sorting, identifier grammar) and compared in value with Expr.tla under all / sampled assignments")
+    sample_lines(chk, trace, 3, lambda r: {"id": r["id"], "text": r["text"]})
+    chk.part("harness", **info)
+    return chk.finish()
+
+
+def c14(tier, replay=None):
+    chk = Check("C14", tier, "model_checking")
+    T = chk.thorough()
+    trace = chk.work / "trace.ndjson"
+    vtrace = chk.work / "values.ndjson"
+    if replay:
+        rep = json.loads(Path(replay).read_text())
+        rec = rep["detail"]["record"]
+        pv.write_ndjson(vtrace if rec.get("ev") == "ReadValue" else trace, [rec])
+        pv.write_ndjson(trace if rec.get("ev") == "ReadValue" else vtrace, [])
+        info = {"records": 1, "value_records": 1}
+    else:
+        pv.write_ndjson(chk.work / "in.ndjson", smt_inputs(chk, T))
+        p = pv.pv(["c14", "--in", chk.work / "in.ndjson", "--out", trace, "--values-out", vtrace, "--random", 20000 if T else 2500, "--values", 40000 if T else 5000])
+        info = json.loads(p.stdout.strip().splitlines()[-1])
+    st = batch_check(chk, "Trace_C01", trace, lambda rj, rec: {"why": rj["why"], "loc": rj.get("loc", ""), "part": "writer-reader"},
+                     lambda rj, rec: {"record": rec, "tlc": rj}, shards=14)
+    st2 = batch_check(chk, "Trace_C14", vtrace, lambda rj, rec: {"why": rj["why"], "loc": rj.get("loc", "").split("|")[0] if rj["why"].startswith("panic") else "", "cls": rj.get("cls", "")},
+                      lambda rj, rec: {"record": rec, "tlc": rj}, shards=8)
+    chk.cov["traces_validated_against_impl"] = st["records"] + st2["records"]
+    chk.cov["evaluations"] = st["records"] + st2["records"]
+    chk.cov["distinct_nontrivial"] = st["records"] + st2["records"]
+    chk.cov["rule"] = ("(a) every term / define-fun / get-value / assert / check-sat-assuming (1 and 2 terms) written for the C05 expression set is read back "
+                       "with parse_expr / parse_command and must have the same type and value under all / sampled assignments; (b) seeded model values "
+                       "(bit-vectors 1-129 bits, arrays incl. Bool index/data, 0-3 stores, let-bound sub-terms, extra white space) in the printed forms "
+                       "must be read as exactly that value; truncated / unbalanced / string-literal variants must yield an error")
+    sample_lines(chk, vtrace, 3, lambda r: {"id": r["id"], "text": r["text"], "kind": r["kind"]})
+    chk.part("harness", **info)
+    chk.assumptions += ["malformedness of a variant is decided by the harness' independent SMT-LIB front end (harness/src/smt.rs)"]
+    return chk.finish()
